@@ -26,9 +26,9 @@ def shards(tier, seed):
     out.append({"name": "aliases", "kind": "aliases", "weight": 4,
                 "roots": ["C", "Bb", "F#", "E", "Abb", "G##", "D"] if tier == "quick" else list(T.pure_names(2))})
     out.append({"name": "slash", "kind": "slash", "basses": 5 if tier == "quick" else 35, "weight": 4})
-    n = 40 if tier == "quick" else 2000
+    n = 500 if tier == "quick" else 4000
     out.append({"name": "polychords", "kind": "poly", "n": n, "weight": 4})
-    m = 400 if tier == "quick" else 20000
+    m = 2400 if tier == "quick" else 20000
     for i in range(1 if tier == "quick" else 4):
         out.append({"name": "malformed-%d" % i, "kind": "malformed", "n": m // (1 if tier == "quick" else 4), "weight": 3})
     return out
